@@ -416,7 +416,11 @@ def run_url_negative(case):
         out.label("fc_" + ("surrogate" if 0xD800 <= cp < 0xE000 else "control" if cp <= 0x20 else
                            "nonchar" if cp >= 0xFFFE else "punct"))
     if ref_parse(u) is not None:
-        raise AssertionError("C16 harness: negative catalogue produced a grammatical URL %r (%s)" % (u, kind))
+        # the catalogue entry happens to be grammatical for this draw (e.g. 'lbry:b' = stream 'lbry' with claim id 'b'):
+        # nothing to require from it here (valid URLs are the url_valid / url_mutated parts' business)
+        out.label("negative_turned_grammatical")
+        out.nontrivial = False
+        return out
     status, url = _url_parse(u)
     if status == "ok":
         if u.endswith("\n") and ref_parse(u[:-1]) is not None:
